@@ -225,10 +225,11 @@ package part
 //@   ensures result <==> rootOnly(o)
 
 //@ func (*Tree).Txn
-//@   property C01 C11
+//@   property C01 C11 C12
 //@   flag nosafety
 //@   requires t != nil && t.prevTxn != nil
 //@   ensures @starts-at-reserved-id result != nil && result.txnID == t.nextTxnID && result.root == t.root && result.oldRoot == t.root && result.size == t.size && result.rootWatch == t.rootWatch && !result.dirty
+//@   ensures @starts-with-no-recorded-watches result.watches != nil ==> (forall c ptr :: !has(result.watches, c))
 
 //@ func (*Txn).Clone
 //@   property C01 C11 C17
